@@ -16,7 +16,7 @@ ASSUMPTIONS = ['the helper last_char_offset(&str) returns the start of the last 
                'a String is identified with the slice it was copied from (same allocation, offset, length)']
 CORPUS_V = ['1.2.900719925474100', '1.2.', 'foo', '1.2.3.4.5.6' * 0 + '1.', '', 'v', '1.2.x', ' 1.2.99999999999999999999999', 'é1.2.3', '1.2.3\n4.x', '1' * 300, 'a' * 257, '1.2.3-é', '1.2.3-' + 'a' * 255 + 'é', '1.0.0-' + 'a' * 260 + '\nb']
 # (text, expected offset of the rejected component, expected kind prefix): the component is not at the end of the string
-ACCEPTED = ['900719925474099.900719925474099.900719925474099', '0.0.0', '1.2.3-900719925474100']      # the bound itself is accepted; identifiers are not bounded
+ACCEPTED = ['900719925474099.900719925474099.900719925474099', '0.0.0', '1.2.3-900719925474100', '1.2.3-' + 'a' * 250]      # the numeric bound itself and a string of exactly MAX_LENGTH bytes are accepted; identifiers are not bounded
 NUMBER_CASES = [('900719925474100.1.1', 0, 'MaxIntError(900719925474100)'), ('1.900719925474100.1', 2, 'MaxIntError(900719925474100)'), ('1.2.900719925474100-rc.1', 4, 'MaxIntError(900719925474100)'),
                 ('1.2.99999999999999999999+build', 4, 'ParseIntError'), ('v 12.99999999999999999999.3', 5, 'ParseIntError'), ('99999999999999999999.0.0', 0, 'ParseIntError')]
 CORPUS_R = ['foo', '', '>=1.2.3 <1.0.0', 'é', '~1.y', '>', '1.2.900719925474100', '^1.2.99999999999999999999999', 'foo || bar', '1' * 300]
@@ -102,9 +102,11 @@ def parse_group(s, which):
     def replay(case):
         corpus = CORPUS_V if which == 'Version' else CORPUS_R
         prog = [{'id': 'e%d' % i, 'op': 'version' if which == 'Version' else 'range', 'text': t} for i, t in enumerate(corpus)]
+        acc = ACCEPTED if which == 'Version' else []
+        prog += [{'id': 'ok%d' % i, 'op': 'version', 'text': t} for i, t in enumerate(acc)]
 
         def judge(native):
-            bad = []
+            bad = ['%s::parse(%r...) of %d bytes rejected: %s' % (which, t[:20], len(t), (native.get('ok%d' % i) or {}).get('kind')) for i, t in enumerate(acc) if (native.get('ok%d' % i) or {}).get('ok') is not True]
             for i, t in enumerate(corpus):
                 x = native.get('e%d' % i) or {}
                 if x.get('ok') is False:
@@ -230,8 +232,12 @@ def corpus_group(s):
                 probs.append('kind=%s expected %s' % (x.get('kind'), expect_kind[t]))
             if probs:
                 bad.append('%s::parse(%r): %s' % ('Version' if pre == 'v' else 'Range', t[:30], ', '.join(probs)))
-    prog2 = [{'id': 'n%d' % i, 'op': 'version', 'text': t} for i, (t, _, _) in enumerate(NUMBER_CASES)]
+    prog2 = [{'id': 'n%d' % i, 'op': 'version', 'text': t} for i, (t, _, _) in enumerate(NUMBER_CASES)] + [{'id': 'ok%d' % i, 'op': 'version', 'text': t} for i, t in enumerate(ACCEPTED)]
     nat2 = rp.run(s.binary, [prog2])[0]
+    for i, t in enumerate(ACCEPTED):
+        n += 1
+        if (nat2.get('ok%d' % i) or {}).get('ok') is not True:
+            bad.append('Version::parse(%r...) of %d bytes rejected: %s' % (t[:20], len(t), (nat2.get('ok%d' % i) or {}).get('kind')))
     for i, (t, off, kind) in enumerate(NUMBER_CASES):
         x = nat2.get('n%d' % i) or {}
         n += 1
